@@ -937,13 +937,15 @@ def about_and_cli(cx):
     ok = len(calls) == 1
     if ok:
         c = calls[0]
-        got = {k.arg: sym.show(sym.norm(k.value)) for k in c.keywords}
-        A = None
-        for k in c.keywords:
-            if isinstance(k.value, ast.Attribute) and isinstance(k.value.value, ast.Name):
-                A = k.value.value.id
         want = {'input_path': 'inputpath', 'output_path': 'outputpath', 'verbose': 'verbose', 'plot': 'plot', 'hist_sheet': 'histogram_sheet'}
-        ok = not c.args and got == {k: sym.show(sym.norm('%s.%s' % (A, v))) for k, v in want.items()}
+        # arguments bound by keyword or, through run()'s own parameter list, by position
+        bound = {p_: kwarg(c, p_) for p_ in want}
+        got = {p_: sym.show(sym.norm(v_)) for p_, v_ in bound.items() if v_ is not None}
+        A = None
+        for v_ in bound.values():
+            if isinstance(v_, ast.Attribute) and isinstance(v_.value, ast.Name):
+                A = v_.value.id
+        ok = len(c.args) + len(c.keywords) == len(want) and got == {k: sym.show(sym.norm('%s.%s' % (A, v))) for k, v in want.items()}
         # options declared
         flags = set()
         for a in fn2.calls():
